@@ -1879,7 +1879,7 @@ fn main() {
             }
             return;
         }
-        let worlds = args.cases(22, 420);
+        let worlds = args.cases(22, 200);
         let bias = args.budget > 1;
         for wi in 0..worlds {
             if cx.oracle_failed {
